@@ -48,13 +48,34 @@ pub fn gen_full_definition(rng: &mut Rng, byte_complete: bool, identity_norm: bo
         eow,
         prefix,
         fallback,
-        unknown: !byte_complete || rng.chance(1, 2),
+        // mostly with an unknown token; sometimes none although `Unknown` is in the fallback list (then that
+        // entry does not apply and no other special may stand in for it)
+        unknown: if byte_complete { rng.chance(1, 2) } else { rng.chance(5, 6) },
         max_word_chars: if rng.chance(1, 4) { rng.range(1, 12) as u32 } else { 0 },
         ties: rng.chance(1, 2),
     };
     let mut def = gen_definition(rng, &spec);
     for s in def.specials.iter_mut() {
         s.bytes = b"<unk>".to_vec();
+    }
+    // WordPiece: a continuation entry longer than every word-initial entry
+    if let (Model::WordPiece { vocab, .. }, Some(p)) = (&mut def.model, &spec.prefix) {
+        if rng.chance(1, 2) {
+            let initial: Vec<Vec<u8>> = vocab.iter().filter(|t| !t.bytes.starts_with(p.as_bytes())).map(|t| t.bytes.clone()).collect();
+            if !initial.is_empty() {
+                let mut body = Vec::new();
+                for _ in 0..rng.range(2, 4) {
+                    let piece: &Vec<u8> = rng.pick(&initial[..]);
+                    body.extend_from_slice(piece);
+                }
+                let mut t = p.as_bytes().to_vec();
+                t.extend_from_slice(&body);
+                if std::str::from_utf8(&t).is_ok() && !vocab.iter().any(|x| x.bytes == t) {
+                    let id = vocab.iter().map(|x| x.id).max().unwrap_or(0) + 1;
+                    vocab.push(Token { id, bytes: t });
+                }
+            }
+        }
     }
     // specials of all kinds, extracted and not, incl. look-alikes
     let nspecial = rng.range(0, 5);
@@ -199,6 +220,23 @@ fn text_for_wide(rng: &mut Rng, def: &Definition, alphabet_bias: bool, wide: boo
                 if !def.specials.is_empty() {
                     let sp = rng.pick(&def.specials);
                     s.push_str(&String::from_utf8_lossy(&sp.bytes));
+                }
+            }
+            2 if rng.chance(1, 2) => {
+                // a word spelled from vocabulary entries (continuation prefixes and suffixes removed): pieces that the
+                // vocabulary can cover in more than one way
+                let vocab = def.model.vocab();
+                if !vocab.is_empty() {
+                    for _ in 0..rng.range(1, 4) {
+                        let t = rng.pick(&vocab[..]);
+                        let mut b = &t.bytes[..];
+                        for pre in ["##", "@@"] {
+                            if b.starts_with(pre.as_bytes()) {
+                                b = &b[pre.len()..];
+                            }
+                        }
+                        s.push_str(&String::from_utf8_lossy(b).replace("</w>", ""));
+                    }
                 }
             }
             2 => s.push_str(*rng.pick(SPECIAL_TEXTS)),
